@@ -67,7 +67,8 @@ func c17Body(d c17Desc) func() {
 		mine.Partial = d.Partial
 		st.peer = peer
 		var c1 *vnet.Ctx
-		if d.Kind == "deadline" {
+		if d.Kind == "deadline" || d.Kind == "dlcancel" {
+			// dlcancel: a context with a (far) deadline that its owner cancels early
 			c1 = vnet.NewCtxDeadline("c1")
 		} else {
 			c1 = vnet.NewCtx("c1")
@@ -375,7 +376,10 @@ func scenariosC17(tier string) []Scen {
 	}
 	for _, ops := range seqs {
 		for nc := 1; nc <= 2 && nc <= len(ops); nc++ {
-			for _, kind := range []string{"cancel", "deadline"} {
+			for _, kind := range []string{"cancel", "deadline", "dlcancel"} {
+				if kind == "dlcancel" && len(ops) > 2 && tier == "quick" {
+					continue
+				}
 				for _, ch := range chunkings {
 					for gop := 0; gop <= nc; gop++ {
 						for gd := 0; gd <= len(ch); gd++ {
